@@ -30,8 +30,7 @@ structure OpDef where
 deriving Repr, DecidableEq
 
 /-- `OperatorPar.__init__` after `expr.remove(symbol)`: returns the argument strings and the rest.
-    `left` is `expr.left` reversed.  As written: after a separator at depth 1 the following
-    character is shifted without being examined. -/
+    `left` is `expr.left` reversed. -/
 def scanArgs : Nat → Nat → List Char → List Char → List (List Char) → Option (List (List Char) × List Char)
   | 0, _, _, _, _ => none
   | fuel + 1, depth, left, right, args =>
@@ -40,11 +39,8 @@ def scanArgs : Nat → Nat → List Char → List Char → List (List Char) → 
     | c :: rest =>
       if c = '(' then scanArgs fuel (depth + 1) (c :: left) rest args
       else if c = ',' ∧ depth = 1 then
-        -- expr.remove(','); args.append(pop_left()); expr.shift()
-        let args' := args ++ [strip left.reverse]
-        match rest with
-        | [] => scanArgs fuel depth [] [] args'
-        | d :: rest' => scanArgs fuel depth [d] rest' args'
+        -- expr.remove(','); args.append(pop_left()); continue
+        scanArgs fuel depth [] rest (args ++ [strip left.reverse])
       else if c = ')' then
         if depth = 1 then some (args ++ [strip left.reverse], rest)
         else scanArgs fuel (depth - 1) (c :: left) rest args
